@@ -59,12 +59,47 @@ fn compile_case(rng: &mut StdRng, id: String, n: usize, max_sup: usize, depth: u
         let mut seen = std::collections::HashSet::new();
         l.into_iter().enumerate().map(|(i, x)| if seen.insert(x.clone()) { x } else { format!("u{}", i) }).collect()
     };
+    compile_given(rng, id, labels, asts, &["native", "bridge", "hybrid"], out);
+}
+
+/// "twin" conditions: two statements whose conditions read alike once the quotes are dropped (`and("m,n",o)` / `and(m,"n,o")`,
+/// `neg(m)` / the statement named "neg(m)", `c(v)` / the statement named "c(v)") - whoever identifies a condition by a rendering
+/// of it instead of by its structure merges them.  Labels with brackets are native-only (known finding F9 on the bridge).
+fn twin_case(rng: &mut StdRng, id: String, out: &mut Vec<Value>) {
+    let bin = |k: usize, a: Ast, b: Ast| -> Ast {
+        match k % 5 { 0 => and(a, b), 1 => or(a, b), 2 => xor(a, b), 3 => iff(a, b), _ => imp(a, b) }
+    };
+    let opname = ["and", "or", "xor", "iff", "imp"];
+    let k = rng.gen_range(0..5);
+    let at = |i: usize| Ast::Atom(i);
+    let (labels, asts, paths): (Vec<String>, Vec<Ast>, &[&str]) = match rng.gen_range(0..4) {
+        0 => (vec!["m".into(), "n,o".into(), "m,n".into(), "o".into(), "x".into(), "y".into()],
+              vec![at(0), at(1), not(at(2)), at(3), bin(k, at(0), at(1)), bin(k, at(2), at(3))], &["native", "bridge", "hybrid"]),
+        1 => (vec!["m".into(), "neg(m)".into(), "x".into(), "y".into()],
+              vec![at(0), at(1), not(at(0)), at(1)], &["native"]),
+        2 => (vec!["m".into(), "n".into(), format!("{}(m,n)", opname[k]), "x".into(), "y".into()],
+              vec![at(0), not(at(1)), at(2), bin(k, at(0), at(1)), at(2)], &["native"]),
+        _ => (vec!["c(v)".into(), "c(f)".into(), "x".into(), "y".into(), "z".into()],
+              vec![at(0), at(1), Ast::Top, at(0), if rng.gen_bool(0.5) { at(1) } else { Ast::Bot }], &["native"]),
+    };
+    // the twins in either declaration order
+    let (labels, asts) = if rng.gen_bool(0.5) { (labels, asts) } else {
+        let n = labels.len();
+        let perm: Vec<usize> = (0..n).rev().collect();
+        let inv: Vec<usize> = { let mut v = vec![0; n]; for (p, b) in perm.iter().enumerate() { v[*b] = p; } v };
+        (perm.iter().map(|b| labels[*b].clone()).collect(), perm.iter().map(|b| asts[*b].map_atoms(&|i| inv[i])).collect())
+    };
+    compile_given(rng, id, labels, asts, paths, out);
+}
+
+fn compile_given(rng: &mut StdRng, id: String, labels: Vec<String>, asts: Vec<Ast>, paths: &[&'static str], out: &mut Vec<Value>) {
+    let n = labels.len();
     let facts = if rng.gen_bool(0.5) { canonical_facts(n) } else { shuffled_facts(rng, n) };
     let text = render(&labels, &asts, &facts, &plain_layout());
     let sort = ["none", "lexi", "alphanum"][rng.gen_range(0..3)];
     // random contexts for the variables outside a statement's support (positions in the reported order)
     let contexts: Vec<Vec<usize>> = (0..3).map(|_| (1..=n).filter(|_| rng.gen_bool(0.5)).collect()).collect();
-    for path in ["native", "bridge", "hybrid"] {
+    for path in paths.iter().copied() {
         let (t, s2) = (text.clone(), sort.to_string());
         let res = guarded(120, move || {
             let parser = AdfParser::default();
@@ -111,6 +146,9 @@ pub fn main_compile(args: &[String]) {
         let n = rng.gen_range(1..=5);
         let d = rng.gen_range(1..=4);
         compile_case(&mut rng, format!("c{}", k), n, 5, d, &mut recs);
+    }
+    for k in 0..(if tier == "thorough" { 240 } else { 48 }) {
+        twin_case(&mut rng, format!("t{}", k), &mut recs);
     }
     for k in 0..nbig {
         let n = rng.gen_range(20..=40);
